@@ -498,6 +498,12 @@ def check_windows(case):
         al = obs.labels_of(ar.index)
         if al != [canon(labels[wl]) for wl, _ in want]:
             raise Failure('apply-labels', 'windows %s: apply() labels %s expected %s' % (kw, short(al), short([labels[wl] for wl, _ in want])))
+        # the function applied is handed the same kind of window that iteration yields (an array for the array forms)
+        if want and not case.get('wfunc'):
+            kinds = lib(lambda: sorted(set(arr_list(node().apply(lambda w: type(w).__name__).values))))
+            seen = sorted({type(w).__name__ for w in vr})
+            if isinstance(kinds, Raised) or kinds != seen:
+                raise Failure('apply-window-kind', 'windows %s (%s): apply() handed the function %s, iteration yields %s' % (kw, t, kinds if not isinstance(kinds, Raised) else kinds.exc, seen))
     return {'nt': len(want) >= 2, 'cls': ['w:' + t, 'wlabels:' + case['kind'], 'wother:' + case.get('other', 'str'), 'wfunc:%s' % case.get('wfunc'), 'wvalid:%s' % case.get('wvalid'), 'sized' if case['sized'] else 'unsized', 'step:%d' % case['step'], 'inc:%d' % case['inc']]}
 
 
